@@ -336,6 +336,12 @@ func typePairRule(c *Ctx, rule string) {
 type coReq struct {
 	Desc string
 	Is   func(ins ssa.Instruction) bool
+	// Strict: the action is required on every path from the repositioning to
+	// a successful exit, not merely on some path.
+	Strict bool
+	// Guard: the pointer field through which the required state is reached;
+	// when it is nil there is nothing to update.
+	Guard *types.Var
 }
 
 func reqStoreTo(p *Prog, f *types.Var) (coReq, bool) {
@@ -420,9 +426,51 @@ func coWriteRule(c *Ctx, rule, role string, tf *types.Var, req coReq, reqOK bool
 			}
 			ok := false
 			reach := reachableAvoidingSet(t.Block(), nil, nil)
+			reqBlocks := map[*ssa.BasicBlock]bool{}
 			for _, r := range reqs {
 				if reach[r.Block()] || dominatesBlock(r.Block(), t.Block()) {
 					ok = true
+				}
+				reqBlocks[r.Block()] = true
+			}
+			// … and not only on some path: unless the action was taken before the
+			// cursor moved, no successful exit is reachable from the assignment
+			// around the required action (edges on which the object that carries the
+			// required state is known to be nil need none)
+			if ok && req.Strict {
+				before := false
+				for _, r := range reqs {
+					if dominates(r, t) {
+						before = true
+					}
+				}
+				if req.Guard != nil {
+					// dropping the object that carries the state needs no update of it
+					allInstrs(fn, false, func(_ *ssa.Function, ins ssa.Instruction) {
+						if st, ok := ins.(*ssa.Store); ok && isNilConst(st.Val) {
+							if fs, _, elem := fieldChain(st.Addr); len(fs) > 0 && !elem && fs[len(fs)-1] == req.Guard {
+								reqBlocks[st.Block()] = true
+							}
+						}
+					})
+				}
+				if !before && !reqBlocks[t.Block()] {
+					around := reachableAvoidingSet(t.Block(), reqBlocks, nilGuardEdges(fn, req.Guard))
+					for _, ret := range returnsOf(fn) {
+						if !around[ret.Block()] {
+							continue
+						}
+						failing := false
+						for i := range ret.Results {
+							rv, _ := retResult(ret, i)
+							if rv != nil && isErrorType(rv.Type()) && !isNilConst(rv) {
+								failing = true
+							}
+						}
+						if !failing {
+							ok = false
+						}
+					}
 				}
 			}
 			c.Check(rule, key, t.Pos(), ok, FuncKey(fn)+" assigns "+trigName+" ("+role+") a new position without "+req.Desc+" on the same path: "+why)
@@ -642,4 +690,144 @@ func encodePairsRule(c *Ctx, rule string, min int) {
 	}
 	c.Stats[rule+".encodings"] = n
 	c.Min(rule, min)
+}
+
+// nilGuardEdges: edges on which a load of the guard field is known to be nil.
+func nilGuardEdges(fn *ssa.Function, guard *types.Var) map[[2]*ssa.BasicBlock]bool {
+	out := map[[2]*ssa.BasicBlock]bool{}
+	if guard == nil {
+		return out
+	}
+	for _, b := range fn.Blocks {
+		if len(b.Instrs) == 0 {
+			continue
+		}
+		ifi, ok := b.Instrs[len(b.Instrs)-1].(*ssa.If)
+		if !ok {
+			continue
+		}
+		bo, ok := ifi.Cond.(*ssa.BinOp)
+		if !ok || !(isNilConst(bo.X) || isNilConst(bo.Y)) {
+			continue
+		}
+		isGuard := false
+		for _, side := range []ssa.Value{bo.X, bo.Y} {
+			for _, o := range Origins(side, OriginOpts{}) {
+				if o.Kind == OrgField && o.Field == guard {
+					isGuard = true
+				}
+			}
+		}
+		if !isGuard {
+			continue
+		}
+		if bo.Op == token.EQL {
+			out[[2]*ssa.BasicBlock{b, b.Succs[0]}] = true
+		} else if bo.Op == token.NEQ {
+			out[[2]*ssa.BasicBlock{b, b.Succs[1]}] = true
+		}
+	}
+	return out
+}
+
+// ---------------------------------------------------------------------------
+// T-DELEGATE: a logical type that borrows its column buffer, dictionary,
+// page and column indexer from a physical type borrows all four from the same
+// one. The sort order of a column lives in those four objects (page bounds,
+// dictionary bounds, index order); a wrapper whose dictionary comes from the
+// signed type while its indexer comes from the unsigned one records bounds
+// that do not bound the data in the column's order.
+
+func delegateSiblingRule(c *Ctx, rule string, methods []string, min int) {
+	p := c.P
+	tt := p.LookupType("Type")
+	if !c.Anchor(rule, "Type", tt != nil) {
+		return
+	}
+	iface, _ := tt.Underlying().(*types.Interface)
+	n := 0
+	for _, t := range p.Implementations(iface) {
+		nt := namedOf(t)
+		if nt == nil || nt.Obj().Pkg() != p.Root.Types {
+			continue
+		}
+		sig := map[string]string{}
+		for _, m := range methods {
+			mo, promoted := MethodOf(t, m)
+			if mo == nil || promoted {
+				continue
+			}
+			fn := p.SSAFunc(mo)
+			if fn == nil || fn.Blocks == nil {
+				continue
+			}
+			var srcs []string
+			allCalls(fn, false, func(_ *ssa.Function, call ssa.CallInstruction) {
+				cc := call.Common()
+				name := ""
+				var recv ssa.Value
+				if cc.IsInvoke() {
+					name, recv = cc.Method.Name(), cc.Value
+				} else if sc := cc.StaticCallee(); sc != nil && sc.Signature.Recv() != nil && len(cc.Args) > 0 {
+					name, recv = fnName(sc), cc.Args[0]
+				}
+				if name != m || recv == nil {
+					return
+				}
+				for _, o := range Origins(recv, OriginOpts{}) {
+					switch o.Kind {
+					case OrgCall:
+						srcs = append(srcs, "result of "+calleeName(o.Call))
+					case OrgField:
+						srcs = append(srcs, "field "+p.FieldName(o.Field))
+					default:
+						if tn := namedOf(o.Val.Type()); tn != nil {
+							srcs = append(srcs, "a "+tn.Obj().Name()+" value")
+						} else {
+							srcs = append(srcs, "a "+o.Val.Type().String())
+						}
+					}
+				}
+			})
+			if len(srcs) == 0 {
+				continue // builds its own object
+			}
+			sort.Strings(srcs)
+			srcs = uniqStrings(srcs)
+			sig[m] = strings.Join(srcs, " | ")
+		}
+		if len(sig) < 2 {
+			continue
+		}
+		n++
+		// all delegating methods agree
+		var ms []string
+		for m := range sig {
+			ms = append(ms, m)
+		}
+		sort.Strings(ms)
+		agree := true
+		for _, m := range ms[1:] {
+			if sig[m] != sig[ms[0]] {
+				agree = false
+			}
+		}
+		var desc []string
+		for _, m := range ms {
+			desc = append(desc, m+" from "+sig[m])
+		}
+		c.Check(rule, recvString(t)+" borrows its column objects from one physical type", nt.Obj().Pos(), agree, recvString(t)+" delegates "+strings.Join(desc, "; ")+": the objects that carry the sort order of the column (buffer, dictionary, page, indexer) do not come from the same physical type, so bounds and index order are computed in an order that is not the column's")
+	}
+	c.Stats[rule+".delegating_types"] = n
+	c.Min(rule, min)
+}
+
+func uniqStrings(xs []string) []string {
+	var out []string
+	for i, x := range xs {
+		if i == 0 || x != xs[i-1] {
+			out = append(out, x)
+		}
+	}
+	return out
 }
